@@ -410,7 +410,10 @@ def model_from_dict(obj: Dict) -> Model:
     model.add_metabolites(
         [_metabolite_from_dict(metabolite) for metabolite in obj["metabolites"]]
     )
-    model.genes.extend([gene_from_dict(gene) for gene in obj["genes"]])
+    genes = [gene_from_dict(gene) for gene in obj["genes"]]
+    for gene in genes:
+        gene._model = model
+    model.genes.extend(genes)
     model.add_reactions(
         [_reaction_from_dict(reaction, model) for reaction in obj["reactions"]]
     )
